@@ -1,5 +1,6 @@
 import RCE.Proofs.SearchInfo
 import RCE.Proofs.SearchPvNonempty
+import RCE.Proofs.SearchInfoScore
 /-! # C14 — search progress reports are truthful and well-formed
 
 `Result.infos` are the `info` lines in the order printed (time / nps tokens are not modelled: they
@@ -35,9 +36,20 @@ theorem pv_nonempty (env : Env) (G : Game P M) (p : P) (maxDepth : Option Nat) (
     ∀ i ∈ (search env G p maxDepth tt0).infos, ∃ m rest, i.pv = m :: rest ∧ m ∈ legalMovesOf G p :=
   RCE.Proofs.SearchPvNonempty.pv_nonempty' env G p maxDepth tt0 hc hl he ht
 
+/-- every info line reported for a root that has a legal move carries a score — centipawns strictly between the mate
+    bands, or a non-zero number of moves to mate whose size is ⌈pv length / 2⌉ — never the empty score -/
+theorem info_score_present (env : Env) (G : Game P M) (p : P) (maxDepth : Option Nat) (tt0 : Table M)
+    (hc : MonoClock env) (hl : legalMovesOf G p ≠ []) (he : EvalBoundedFrom G p) (ht : TableScoresOK tt0) :
+    ∀ i ∈ (search env G p maxDepth tt0).infos,
+      (∃ s, i.score = .cp s ∧ MINS + 255 + 1 < s ∧ s < MAXS - 255) ∨
+      (∃ n : Int, i.score = .mate n ∧ n ≠ 0 ∧ n.natAbs = (i.pv.length + 1) / 2 ∧ 1 ≤ n.natAbs ∧
+        (n = -(((i.pv.length + 1) / 2 : Nat) : Int) ∨ n = (((i.pv.length + 1) / 2 : Nat) : Int))) :=
+  RCE.Proofs.SearchInfoScore.info_score_present env G p maxDepth tt0 hc hl he ht
+
 end RCE.Props.C14
 
 #print axioms RCE.Props.C14.info_depths
 #print axioms RCE.Props.C14.depth_limit_complete
 #print axioms RCE.Props.C14.pv_legal
 #print axioms RCE.Props.C14.pv_nonempty
+#print axioms RCE.Props.C14.info_score_present
